@@ -1,7 +1,11 @@
 //! vp_core — property-based testing / fuzzing machinery for the actix-web properties C01..C19.
 //! See /verif/DESIGN.md.
 
+pub mod gen;
+pub mod h1engine;
+pub mod httpwire;
 pub mod props;
+pub mod simnet;
 pub mod runner;
 pub mod util;
 
